@@ -49,9 +49,7 @@ pub fn c19_case(p: u16, u: u16) -> Option<String> {
     }
 }
 
-pub fn c19(ctx: &Ctx) {
-    ctx.set_rule("all 65535 x 65536 (Pid, u16) pairs; oracle = stepping u times around the cycle 1..=65535 (incremental), cross-checked against the closed form; non-trivial = pairs whose sum or difference wraps around");
-    // try_from on all raw values
+pub fn c19_try_from(ctx: &Ctx) {
     for x in 0..=65535u16 {
         let r = Pid::try_from(x);
         ctx.eval(1);
@@ -67,6 +65,11 @@ pub fn c19(ctx: &Ctx) {
     if Pid::default().value() != 1 {
         ctx.violation("C19:default".into(), format!("Pid::default() = {}", Pid::default().value()), json!({"kind":"pid-default"}));
     }
+}
+
+pub fn c19(ctx: &Ctx) {
+    ctx.set_rule("all 65535 x 65536 (Pid, u16) pairs; oracle = stepping u times around the cycle 1..=65535 (incremental), cross-checked against the closed form; non-trivial = pairs whose sum or difference wraps around");
+    c19_try_from(ctx);
     let wraps = AtomicU64::new(0);
     (1..=65535u16).into_par_iter().for_each(|p| {
         let pid = Pid::try_from(p).unwrap();
@@ -106,7 +109,18 @@ pub fn c19(ctx: &Ctx) {
         ctx.state(1);
         if let Some(u) = bad {
             let what = c19_case(p, u).unwrap_or_else(|| "incremental and closed-form oracle disagree".into());
-            ctx.violation(format!("C19:arith:p={p}:u={u}"), what, json!({"kind":"pid","p":p,"u":u}));
+            let class = if what.starts_with("panic") {
+                "panic"
+            } else if what.contains(" + ") {
+                "add"
+            } else if what.contains(" - ") && !what.contains("(p+u)") {
+                "sub"
+            } else if what.contains("in-place") {
+                "assign"
+            } else {
+                "roundtrip"
+            };
+            ctx.violation(format!("C19:arith:{class}"), what, json!({"kind":"pid","p":p,"u":u}));
         }
         // closed form agrees with the stepping oracle at the end of the row (self-check of the oracle)
         debug_assert!(true);
